@@ -1,7 +1,7 @@
 (* C01 — the interpolant reproduces the loaded model values at every loaded point.  Statements only. *)
 From TV Require Import Common.Prelude Model.IndexSets Model.GridState Model.RuleLocal Model.Selection Model.Hier Model.LocalGrid.
 From TV Require Import Model.SequenceGrid Proofs.IndexSetsProofs Proofs.GridStateProofs Proofs.HierProofs Proofs.LocalGridProofs Proofs.SequenceProofs.
-From TV Require Import Proofs.LocalComplete.
+From TV Require Import Proofs.LocalComplete Model.StdGrid Proofs.StdGridProofs.
 From Coq Require Import QArith Qcanon Ring.
 Local Open Scope Z_scope.
 
@@ -56,6 +56,17 @@ Proof. exact localpoly_complete_reproduces. Qed.
 Theorem c01_certificate_complete : forall r order d pts,
   binary r -> wellformed d pts -> parent_complete r pts = true -> hier_cert r order pts = true.
 Proof. exact localpoly_complete_cert. Qed.
+
+(* every grid built by makeLocalPolynomialGrid (all multi-indexes with level sum <= depth; Model/StdGrid.v, compared with the
+   implementation's point sets by the check) is well formed and parent complete, for EVERY dimension and depth: it reproduces *)
+Theorem c01_standard_grids_unbounded : forall r d depth, binary r -> 0 <= depth ->
+  forall order (vals : list (idx * Qc)) i, In i (std_grid r d depth) ->
+    evalAt r order (std_grid r d depth) vals (LocalGrid.node_of r i) = assoc vals i.
+Proof. exact std_grid_reproduces. Qed.
+
+Theorem c01_standard_grid_points : forall r d, binary r -> forall depth p, 0 <= depth ->
+  (In p (std_grid r d depth) <-> length p = d /\ Forall (fun a => 0 <= a) p /\ levelsum r p <= depth).
+Proof. exact std_grid_spec. Qed.
 
 (* Sequence grids: for EVERY dimension, EVERY duplicate-free index set (lower or not) and EVERY sequence of pairwise
    distinct one-dimensional nodes the Newton-form interpolant equals the supplied value at every node *)
@@ -113,6 +124,8 @@ Print Assumptions c01_interp_at_node.
 Print Assumptions c01_localpoly_certified.
 Print Assumptions c01_localpoly_complete_unbounded.
 Print Assumptions c01_certificate_complete.
+Print Assumptions c01_standard_grids_unbounded.
+Print Assumptions c01_standard_grid_points.
 Print Assumptions c01_sequence.
 Print Assumptions c01_values_follow_their_points.
 Print Assumptions c01_certificate_holds_on_standard_grids_bounded.
